@@ -562,6 +562,23 @@ impl Session {
                         let _ = get_id(db, &u, k, None);
                     }
                 });
+                // ... and freshly positioned iterators charge the files they read from through
+                // read sampling (every new iterator samples the first entries it parses): n
+                // iterators positioned on ONE key (the key depends on n)
+                let hot = u.key((*n % u.n()) as i64 + 1).clone();
+                self.wd.call("scan", || {
+                    for _ in 0..*n {
+                        if let Ok(mut it) = db.new_iterator(ReadOptions {
+                            fill_cache: true,
+                            snapshot: None,
+                        }) {
+                            let _ = it.seek(&hot);
+                            if it.is_valid() {
+                                it.next();
+                            }
+                        }
+                    }
+                });
             }
         }
     }
